@@ -5,6 +5,8 @@ use crate::ctx::*;
 use crate::flow::*;
 use crate::gen::*;
 use crate::imp::*;
+use crate::keys::*;
+use crate::tok::*;
 use serde_json::{json, Value};
 
 pub fn run(ctx: &mut Ctx, _replay: Option<&str>) {
@@ -81,6 +83,43 @@ pub fn run(ctx: &mut Ctx, _replay: Option<&str>) {
             origin: json!({"flow": f.json()}),
             nontrivial: true,
         });
+    }
+    // hand-built tokens (signed here with the test issuer key): the validity claims of the ISSUER-SIGNED payload decide, never a
+    // disclosed claim of the same name and never the instant a key-binding JWT claims for itself
+    {
+        let now = now();
+        let mut r = ctx.rng.fork(5_000_000);
+        for (k, fmt) in [Fmt::Compact, Fmt::Json, Fmt::Compact, Fmt::Json].into_iter().enumerate() {
+            // (a) no exp in the signed payload; a disclosure named exp (any number) referenced from the top-level _sd
+            for (name, val) in [("future", json!(now + 100000)), ("past", json!(1000000000u64)), ("zero", json!(0))] {
+                let d = b64_json(&json!(["c2FsdC1mb3ItZXhw", "exp", val]));
+                let payload = json!({"iss": "https://issuer.example", "_sd_alg": "sha-256", "_sd": [hash(&d)], "sub": "x"});
+                let jwt = sign_payload(&payload, KeyId::IssuerEc);
+                let input = Parts { jwt, disclosures: vec![d], kb: None }.render(fmt);
+                attacks.push(Attack { name: format!("exp-only-as-a-disclosed-claim-{}", name), args: VerifyArgs { input, fmt, resolver: Resolver::always(KeyId::IssuerEc), aud: None, nonce: None },
+                                      expect: Expect::Reject, origin: json!({"hand_built": "no exp in the signed payload", "disclosed_exp": name}), nontrivial: true });
+            }
+            // (b) expired credential, key binding requested, the KB-JWT claims an iat before the expiry
+            let holder = if k % 2 == 0 { KeyId::HolderEc } else { KeyId::HolderEd };
+            let exp = now - 3600 - r.next() % 100000;
+            let payload = json!({"iss": "https://issuer.example", "exp": exp, "_sd_alg": "sha-256", "cnf": {"jwk": holder.jwk_json().unwrap()}, "sub": "x"});
+            let jwt = sign_payload(&payload, KeyId::IssuerEc);
+            let sd_hash = hash(&Parts { jwt: jwt.clone(), disclosures: vec![], kb: None }.compact());
+            for (name, iat) in [("before-expiry", exp - 600), ("long-ago", 1000000000u64), ("now", now)] {
+                let kb = sign_token(&json!({"alg": holder.alg(), "typ": "kb+jwt"}), &json!({"nonce": "n-1", "aud": "https://verifier.example", "iat": iat, "sd_hash": sd_hash}), holder, holder.alg());
+                let input = Parts { jwt: jwt.clone(), disclosures: vec![], kb: Some(kb) }.render(fmt);
+                attacks.push(Attack { name: format!("expired-with-key-binding-iat-{}", name), args: VerifyArgs { input, fmt, resolver: Resolver::always(KeyId::IssuerEc), aud: Some("https://verifier.example".into()), nonce: Some("n-1".into()) },
+                                      expect: Expect::Reject, origin: json!({"hand_built": "expired credential with key binding", "kb_iat": name}), nontrivial: true });
+            }
+            // control: the same construction inside the window is accepted
+            let payload = json!({"iss": "https://issuer.example", "exp": now + 100000, "_sd_alg": "sha-256", "cnf": {"jwk": holder.jwk_json().unwrap()}, "sub": "x"});
+            let jwt = sign_payload(&payload, KeyId::IssuerEc);
+            let sd_hash = hash(&Parts { jwt: jwt.clone(), disclosures: vec![], kb: None }.compact());
+            let kb = sign_token(&json!({"alg": holder.alg(), "typ": "kb+jwt"}), &json!({"nonce": "n-1", "aud": "https://verifier.example", "iat": now, "sd_hash": sd_hash}), holder, holder.alg());
+            let input = Parts { jwt, disclosures: vec![], kb: Some(kb) }.render(fmt);
+            attacks.push(Attack { name: "control-hand-built-in-window-with-key-binding".into(), args: VerifyArgs { input, fmt, resolver: Resolver::always(KeyId::IssuerEc), aud: Some("https://verifier.example".into()), nonce: Some("n-1".into()) },
+                                  expect: Expect::Accept, origin: json!({"hand_built": "control"}), nontrivial: true });
+        }
     }
     run_attacks(ctx, &attacks);
     if let Some(a) = attacks.last() {
